@@ -380,7 +380,8 @@ PubCall(c, msg, hasack) ==
         /\ G("C07", "Q2HandedOnce", \A x \in S(c).inc : x.id = cl[c].pkt.id => (~x.handed \/ ~x.acked))
         /\ ghost' = [ghost EXCEPT !.handed = Append(@, msg.m)]
      \/ /\ cl[c].cleanup = "start"                                   \* the will, from cleanup
-        /\ G("C12", "WillOnlyIfAcceptedAndNotDisconnected", cl[c].accepted /\ ~cl[c].discon /\ cl[c].haswill)
+        /\ G(IF cl[c].authfail \/ ~cl[c].seenconnect THEN "C12,C20" ELSE "C12", "WillOnlyIfAcceptedAndNotDisconnected",
+             cl[c].accepted /\ ~cl[c].discon /\ cl[c].haswill)
         /\ G("C12", "WillAtMostOnce", cl[c].wills = 0)
         /\ G("C12", "WillFieldsIntact", SameMsg(msg, cl[c].will) /\ msg.q = cl[c].will.q /\ msg.ret = cl[c].will.ret)
         /\ ~hasack
@@ -552,9 +553,10 @@ DeqRet(c, msg, fromStored) ==
      IN /\ queue # <<>>
         /\ LET e == Head(queue)
                gs == e.gs \cup Grants(s, e.msg.top) IN
-           /\ G("C06", "ForwardIntact", SameMsg(msg, e.msg))
+           \* (a retained replay is C11's business: "exactly the retained messages ... same QoS capping as live deliveries")
+           /\ G(IF e.msg.ret THEN "C11" ELSE "C06", "ForwardIntact", SameMsg(msg, e.msg))
            /\ G("C11", "RetainFlag", msg.ret = e.msg.ret)
-           /\ G("C06", "DeqQoSCap", msg.q \in {Min(e.msg.q, g) : g \in gs})
+           /\ G(IF e.msg.ret THEN "C11" ELSE "C06", "DeqQoSCap", msg.q \in {Min(e.msg.q, g) : g \in gs})
            /\ dq' = [dq EXCEPT ![c] = [pc |-> IF msg.q = 0 THEN "saved" ELSE "have", msg |-> msg, gs |-> gs, id |-> 0]]
         /\ sess' = IF fromStored THEN [sess EXCEPT ![s].sq = Tail(@)] ELSE [sess EXCEPT ![s].tq = Tail(@)]
   /\ UNCHANGED <<link, up, down, cl, ackq, ackdue, tok, pubctx, retained, cfg, closing, ghost>>
@@ -659,6 +661,7 @@ SettledConn(c) ==
        /\ G("C20", "EveryRequestAnswered", up[c] = <<>> /\ ackq[c] = <<>> /\ cl[c].pc = "idle" /\ ~pubctx[c].on)
        /\ G("C07", "EveryAcceptedPublishAcknowledged", cfg.ackmode = "never" \/ ackdue[c] = {})
        /\ G("C06", "AllSentReceived", down[c] = <<>>)
+       /\ G("C11", "RetainedReplayDelivered", \A i \in 1..Len(S(c).tq) : ~S(c).tq[i].msg.ret)
        /\ G("C06,C08,C16", "QueuedMessagesDelivered",
             \/ (S(c).tq = <<>> /\ S(c).sq = <<>> /\ dq[c].pc = "calling")
             \/ (tok[c].d = 0 /\ dq[c].pc = "wait"))             \* window exhausted: the peer withholds acknowledgements
